@@ -62,6 +62,13 @@ def strat_baseline():
     return case()
 
 
+def crop_image(ctx, eng, img, baseline, heights):
+    """EngineLineCropper.crop as its callers use it (three positional arguments): the result is the crop, an image"""
+    out = ctx.must("crop_raises", eng.crop, img, baseline, heights)
+    ctx.check(isinstance(out, np.ndarray) and out.ndim == 3, "crop_does_not_return_an_image", lambda: "returned %s" % (type(out).__name__,))
+    return out
+
+
 def make_image(case, h=None, w=None):
     h = h or case["img"][0]
     w = w or case["img"][1]
@@ -174,7 +181,7 @@ def body_geometry(ctx, case):
     coords = ctx.must("get_crop_inputs_raises", eng.get_crop_inputs, base.copy(), list(case["heights"]), case["line_height"])
     check_geometry(ctx, case, np.asarray(coords), desc)
     img = make_image(case)
-    crop = eng.crop(img, base.copy(), list(case["heights"]))
+    crop = crop_image(ctx, eng, img, base.copy(), list(case["heights"]))
     want = eng.fast_remap(img, coords)
     ctx.check(crop.shape == want.shape and np.array_equal(crop, want), "crop_fell_back_to_blank",
               lambda: "crop shape %r, map shape %r; " % (crop.shape, coords.shape) + desc())
@@ -196,7 +203,7 @@ def body_geometry(ctx, case):
     for name, bvar in variants:
         ref_b = np.asarray(bvar, dtype=np.float64)
         want_map = np.asarray(eng.get_crop_inputs(ref_b.copy(), list(case["heights"]), case["line_height"]))
-        got_crop = eng.crop(img, bvar, list(case["heights"]))
+        got_crop = crop_image(ctx, eng, img, bvar, list(case["heights"]))
         want_crop = eng.fast_remap(img, want_map)
         ctx.check(got_crop.shape == want_crop.shape and np.array_equal(got_crop, want_crop), "crop_depends_on_baseline_container_or_dtype",
                   lambda: "baseline as %s: crop shape %r, expected %r; " % (name, got_crop.shape, want_crop.shape) + desc())
@@ -285,7 +292,7 @@ def body_pixels(ctx, case):
     canvas = make_image(case, Hh, W)
     shift = np.array([-x0, -y0], dtype=np.float64)
     b_in = base + shift                 # non-negative coordinates, band inside the canvas
-    ref = eng.crop(canvas, b_in.copy(), list(case["heights"]))
+    ref = crop_image(ctx, eng, canvas, b_in.copy(), list(case["heights"]))
     ctx.check(ref.shape[0] == case["line_height"] and ref.shape[1] == coords.shape[1], "crop_fell_back_to_blank", lambda: "shape %r; " % (ref.shape,) + desc())
     # (a) joint shift by an integer margin inside a zero border
     m = case["margin"]
@@ -293,7 +300,7 @@ def body_pixels(ctx, case):
     big = np.zeros((Hh + 2 * my, W + 2 * m, 3), dtype=np.uint8)
     big[my:my + Hh, m:m + W] = canvas
     mv = np.array([m, my], dtype=np.float64)
-    moved = eng.crop(big, b_in + mv, list(case["heights"]))
+    moved = crop_image(ctx, eng, big, b_in + mv, list(case["heights"]))
     map_ref = np.asarray(eng.get_crop_inputs(b_in.copy(), list(case["heights"]), case["line_height"]))
     map_mov = np.asarray(eng.get_crop_inputs(b_in + mv, list(case["heights"]), case["line_height"]))
     ctx.check(map_ref.shape == map_mov.shape and np.abs(map_mov - mv.astype(np.float32) - map_ref).max() < 2e-3, "sampling_map_changes_under_joint_shift",
@@ -308,7 +315,7 @@ def body_pixels(ctx, case):
     cut = canvas[cy:, cx:] if m % 2 else canvas[:cy, :cx]
     off = np.array([cx, cy], dtype=np.float64) if m % 2 else np.zeros(2)
     cb = b_in - off
-    cropped = eng.crop(cut, cb.copy(), list(case["heights"]))
+    cropped = crop_image(ctx, eng, cut, cb.copy(), list(case["heights"]))
     map2 = np.asarray(eng.get_crop_inputs(cb.copy(), list(case["heights"]), case["line_height"]))
     ctx.check(cropped.shape[:2] == map2.shape[:2], "crop_fell_back_to_blank", lambda: "cut crop shape %r; " % (cropped.shape,) + desc())
     if cropped.shape == ref.shape:
@@ -342,13 +349,13 @@ def body_pixels(ctx, case):
             page[32800:, :] = canvas
             page_cut, small_cut = page[:32800 + cy, :], canvas[:cy, :]
         ctx.event("page_side_over_32767")
-        far = eng.crop(page, b_in + offp, list(case["heights"]))
+        far = crop_image(ctx, eng, page, b_in + offp, list(case["heights"]))
         ctx.check(far.shape == ref.shape, "crop_fell_back_to_blank", lambda: "far end of a %r page: shape %r expected %r; " % (page.shape, far.shape, ref.shape) + desc())
         dfar = np.abs(far.astype(int) - ref.astype(int))
         ctx.check(dfar.mean() <= 3.0 and dfar.max() <= 40, "crop_differs_on_very_large_page",
                   lambda: "mean difference %.2f max %d; " % (dfar.mean(), dfar.max()) + desc())
-        want_cut = eng.crop(small_cut, b_in.copy(), list(case["heights"]))
-        got_cut = eng.crop(page_cut, b_in + offp, list(case["heights"]))
+        want_cut = crop_image(ctx, eng, small_cut, b_in.copy(), list(case["heights"]))
+        got_cut = crop_image(ctx, eng, page_cut, b_in + offp, list(case["heights"]))
         ctx.check(got_cut.shape == want_cut.shape, "crop_fell_back_to_blank",
                   lambda: "line crossing the edge of a %r page: shape %r expected %r; " % (page_cut.shape, got_cut.shape, want_cut.shape) + desc())
         dcut = np.abs(got_cut.astype(int) - want_cut.astype(int))
